@@ -118,6 +118,15 @@ def build_stream(spec):
                     e = [e[0], e[1], e[2], b''.join(x.to_bytes(8, 'little') for x in a)]
             if e[1] == 'TRACE_STRING_NEWTHREAD' and spec.get('drop_names', 0) >> (occ % 8) & 1:
                 continue
+            if e[1] == 'PERF_THD_Data' and e[2] == 0:
+                # the sampler describes the thread its record NAMES: usually the sampled thread itself, but also thread 0
+                # or another logging thread
+                occ += 1
+                mode = (spec.get('retarget', 0) >> (occ % 7)) & 3
+                if mode in (1, 2):
+                    a = [int.from_bytes(e[3][8 * k:8 * k + 8], 'little') for k in range(4)]
+                    a[1] = 0 if mode == 1 else SC.PROGRAM_TIDS[(i + occ) % max(n, 1)]
+                    e = [e[0], e[1], e[2], b''.join(x.to_bytes(8, 'little') for x in a)]
             out.append(e)
         progs[i] = out
     evs = SC.merge(progs, spec['schedule'])
@@ -238,7 +247,12 @@ def prop_v2(ctx, case):
     heads = {}
     for k in range(len(tbody)):
         heads[tsegs[0][k] + tsegs[3][k]] = tsegs[0][k] + tsegs[3][k] + tsegs[4][k]
+    # (sampler records are class 0x25: a request that leaves that class out does not read them, and the statement does not
+    # say it should; streams with sampler declarations are therefore compared under filter sets that include the class)
+    sampler = any(e[1] == 'PERF_THD_Data' for e in evs)
     for fc, fs in ([[], [0x0701]], [[], [0x0700]], [[4], []], [[1], [0x0701]], [[0x25, 0x1f], []], [[], [0x040c, 0x0701]])[case['spec'].get('retarget', 0) % 2::2]:
+        if sampler:
+            fc = fc + [0x25]
         pf = parser_with(cfg_on)
         pf.filter_class, pf.filter_subclass = list(fc), list(fs)
         for line in guard(lambda: [str(x) for x in pf.formatted_traces(BudgetReader(blob))]):
